@@ -117,6 +117,15 @@ def step(B, G, nsamp=3):
         out = B.scalars(node.apply(None, samples))
         for i in range(nsamp):
             G.eq("re-evaluated %s[%d]" % (tag, i), out[i], f(a.vals[i], b.vals[i]), tol=1e-13)
+    m3, s25 = O.frac(-3), O.lit(-2.5)
+    for tag, node, ref in (("-(a*-3)", -(a * -3), [-(x * m3) for x in a.vals]), ("-(-2.5*a)", -(-2.5 * a), [-(s25 * x) for x in a.vals]),
+                           ("b-(a*-2.5)", b - (a * -2.5), [y - x * s25 for x, y in zip(a.vals, b.vals)]), ("1-(-3*a)", 1 - (-3 * a), [1 - m3 * x for x in a.vals]),
+                           ("2*(a+1)", 2 * (a + 1), [2 * (x + 1) for x in a.vals]), ("(b-3)*0.5", (b - 3) * 0.5, [(y - 3) * O.frac(1, 2) for y in b.vals]),
+                           ("0*(a+5)", 0 * (a + 5), [O.frac(0) * x for x in a.vals]), ("3*((a+b)+1)", 3 * ((a + b) + 1), [3 * (x + y + 1) for x, y in zip(a.vals, b.vals)]),
+                           ("(1.5-a)*4", (1.5 - a) * 4, [(O.lit(1.5) - x) * 4 for x in a.vals])):
+        out = B.scalars(node.apply(None, samples))
+        for i in range(nsamp):
+            G.eq("%s[%d]" % (tag, i), out[i], ref[i], tol=1e-13)
     # sharing: one sum object used as the left / right operand of several larger expressions keeps its own value, and each
     # larger expression has exactly its own terms (expression DAGs, not only trees)
     s_ = a + 1.5
